@@ -68,6 +68,7 @@ struct Params {
 trait Model {
     fn m_json(&self) -> Result<Value, String>;
     fn m_predict(&self, x: &DenseMatrix<f64>) -> Result<Vec<f64>, String>;
+    fn m_sequences(&self, c: &mut Case, name: &str, sg: &str, x: &DenseMatrix<f64>, pred: &[f64]);
 }
 
 impl Model for DecisionTreeRegressor<f64> {
@@ -77,6 +78,9 @@ impl Model for DecisionTreeRegressor<f64> {
     fn m_predict(&self, x: &DenseMatrix<f64>) -> Result<Vec<f64>, String> {
         DecisionTreeRegressor::predict(self, x).map_err(|e| e.to_string())
     }
+    fn m_sequences(&self, c: &mut Case, name: &str, sg: &str, x: &DenseMatrix<f64>, pred: &[f64]) {
+        sequence_checks(c, name, sg, self, x, pred, |m, q| m.predict(q));
+    }
 }
 
 impl Model for DecisionTreeClassifier<f64> {
@@ -85,6 +89,9 @@ impl Model for DecisionTreeClassifier<f64> {
     }
     fn m_predict(&self, x: &DenseMatrix<f64>) -> Result<Vec<f64>, String> {
         DecisionTreeClassifier::predict(self, x).map_err(|e| e.to_string())
+    }
+    fn m_sequences(&self, c: &mut Case, name: &str, sg: &str, x: &DenseMatrix<f64>, pred: &[f64]) {
+        sequence_checks(c, name, sg, self, x, pred, |m, q| m.predict(q));
     }
 }
 
@@ -592,6 +599,7 @@ fn evaluate(c: &mut Case, kind: Kind, x: &Mat, y: &[f64], prm: &Params, tag: &st
     if !c.check(&o("predict.length"), pred.len() == n, &sg, || format!("{} predictions for {} rows", pred.len(), n)) {
         return;
     }
+    model.m_sequences(c, &o("predict"), &sg, &xm, &pred);
     let agrees = |strict: bool| (0..n).all(|i| same(pred[i], leaf_value(&tree, walk(&tree, &rows_x[i], strict), cls)));
     let strict = if agrees(false) {
         false
